@@ -2,6 +2,7 @@
 from __future__ import annotations
 
 import types
+from .ns import StubNS
 
 import z3
 
@@ -259,11 +260,46 @@ def inv(m):
     return Tensor(m.shape, lambda idx: InvV(me, idx[0], idx[1]))
 
 
-def mvn_logpdf(x, mean, cov):
+LogDetV = z3.Function("LogDet", V, z3.RealSort())
+
+
+def slogdet(m):
     from ..gfi import enc
 
-    Assumed.note("jax.scipy.stats.multivariate_normal.logpdf(x, mean, cov): uninterpreted Gaussian log density")
-    return Sym(MvnLP(enc(x), enc(mean), enc(cov)))
+    Assumed.note("jnp.linalg.slogdet(M) = (sign, log|det M|): uninterpreted log-determinant (covariances: sign 1)")
+    return Sym(z3.RealVal(1)), Sym(LogDetV(enc(m)))
+
+
+def mvn_logpdf(x, mean, cov):
+    """log N(x; mean, cov) = -1/2 (d log 2 pi + log det cov + (x-mean)^T cov^-1 (x-mean)), with uninterpreted
+    inverse and log-determinant: hand-written Gaussian densities can be compared against the library call"""
+    from ..tensor import Tensor, _dterm, _toreal
+
+    Assumed.note("jax.scipy.stats.multivariate_normal.logpdf(x, m, S) = -1/2 (d log(2 pi) + log det S + (x-m)^T S^-1 (x-m))")
+    diff = x - mean
+    if isinstance(mean, Tensor):
+        import z3 as _z
+
+        probe = _z.simplify(mean.fn(tuple(_z.Int("mz!%d" % k) for k in range(mean.ndim))))
+        if _z.is_rational_value(probe) and probe.numerator_as_long() == 0:
+            diff = x
+    d = Sym(_toreal(_dterm(x.shape[0])))
+    quad = diff @ inv(cov) @ diff
+    return (d * log(2.0 * 3.141592653589793) + slogdet(cov)[1] + quad) * -0.5
+
+
+# jnp.inf: an unknown positive real bound.  Comparisons against +-inf are NOT simplified away, so code that
+# special-cases infinite entries (e.g. `w > -jnp.inf`) is analysed for both outcomes: an entry at or below -INF
+# stands for a -inf entry.
+INF = Sym(z3.Real("INF"))
+
+
+def isfinite(x):
+    from ..tensor import Tensor
+
+    if isinstance(x, Tensor):
+        return (x > -INF) & (x < INF)
+    return (array(x) > -INF) & (array(x) < INF)
 
 
 def zeros(shape, dtype=None):
@@ -287,9 +323,9 @@ def ones(shape, dtype=None):
 
 
 def namespace(**extra):
-    ns = types.SimpleNamespace(
+    ns = StubNS(
         array=array, asarray=asarray, shape=shape, ndim=ndim, where=where, sum=sum, any=any,
-        minimum=minimum, maximum=maximum, log=log, exp=exp, add=add, ndarray=object, arange=arange, zeros=zeros, ones=ones, mean=mean, repeat=repeat, nan=float('nan'), cumsum=cumsum, searchsorted=searchsorted, diag=diag, linalg=types.SimpleNamespace(inv=inv), zeros_like=lambda x: zeros(x.shape) if hasattr(x, 'shape') and x.shape else Sym(z3.RealVal(0)), concatenate=concatenate,
+        minimum=minimum, maximum=maximum, log=log, exp=exp, add=add, ndarray=object, arange=arange, zeros=zeros, ones=ones, mean=mean, repeat=repeat, nan=float('nan'), inf=INF, isfinite=isfinite, isinf=lambda x: ~isfinite(x), cumsum=cumsum, searchsorted=searchsorted, diag=diag, linalg=StubNS(inv=inv, slogdet=slogdet), zeros_like=lambda x: zeros(x.shape) if hasattr(x, 'shape') and x.shape else Sym(z3.RealVal(0)), concatenate=concatenate,
         float32="float32", int32="int32", bool_="bool", pi=3.141592653589793,
     )
     for k, v in extra.items():
